@@ -99,6 +99,9 @@ class AsNumberAnonymizer(object):
     def __init__(self, as_numbers, salt):
         """Create an anonymizer for the specified list of AS numbers (strings) and salt."""
         self.salt = salt
+        # The numbers are used as text below (pattern, hash input, lookup key), so use
+        # their plain decimal spelling whatever int() accepted (blanks, "+", leading zeros)
+        as_numbers = [str(int(as_number)) for as_number in as_numbers]
         self._generate_as_number_regex(as_numbers)
         self._generate_as_number_replacement_map(as_numbers)
 
